@@ -1,6 +1,7 @@
 /-
 Driver for E1/arena (C10).  One request = one whole history:
-  {"ops":[OP,…]}  →  {"steps":[{"res":R,"state":[HANDLE-STATE,…]},…]}
+  {"ops":[OP,…]}  →  {"steps":[{"res":R,"state":[HANDLE-STATE,…],"inv":bool},…]}
+("inv" = the verified checker `invB` on the whole store after the op: `Proofs/ArenaCheck.lean: invB_sound`)
 Operands are *handles* (positions in the list of node references handed out so far); every
 operation that returns a node pushes a new handle (also `parent`, when it is not None).
 OP:  {"op":"mk","sym":SYM,"sender":s|null,"recipient":s|null,"kids":[h…],"ro":bool}
@@ -21,7 +22,7 @@ The hash values of the model are canonical strings (an injective `Hc`), so `eq`/
 structural comparisons of what the caches currently hold.
 -/
 import Driver.Common
-import Model.ArenaStep
+import Model.ArenaCheck
 open Lean FV FV.Drv
 
 abbrev HV := String
@@ -196,7 +197,7 @@ def doOp (d : DState) (j : Json) : Except String (DState × Json) := do
   let name ← j.getObjValAs? String "op"
   if name == "classes" then
     let (d', r) ← classes d
-    return (d', Json.mkObj [("res", r), ("state", jState d')])
+    return (d', Json.mkObj [("res", r), ("state", jState d'), ("inv", Json.bool (invB HcS (fuelOf d'.σ) d'.σ))])
   let op ← opOfJson d j
   let (σ', res) := step HcS (fuelOf d.σ) d.σ op
   let hs' := match res with
@@ -204,7 +205,8 @@ def doOp (d : DState) (j : Json) : Except String (DState × Json) := do
     | .optNode (some n) => d.hs.push n
     | _ => d.hs
   let d' : DState := { σ := σ', hs := hs' }
-  return (d', Json.mkObj [("res", jRes d' res), ("state", jState d')])
+  return (d', Json.mkObj [("res", jRes d' res), ("state", jState d'),
+    ("inv", Json.bool (invB HcS (fuelOf σ') σ'))])
 
 def handle (j : Json) : Except String Json := do
   let ops ← (← j.getObjVal? "ops").getArr?
